@@ -475,6 +475,11 @@ pub fn gen_c08(rng: &mut Rng) -> Value {
             }
             _ => o["sri"] = json!({"multi":[{"val":0,"algo":algo,"wrong":true},{"val":1,"algo":"xxh3"}]}),
         }
+        if rng.chance(1, 10) {
+            // the true address of the bystander's value
+            o["algo"] = json!("sha256");
+            o["sri"] = json!({"val":1,"algo":"sha256"});
+        }
         if rng.chance(1, 3) {
             o["meta"] = json!({"attempt": true});
         }
@@ -615,10 +620,17 @@ pub fn gen_c14(rng: &mut Rng) -> Value {
             }
             4 => {
                 // rejected by the size check, on either side of the mmap threshold
-                o["size"] = json!(if rng.chance(1, 2) { len + (1 << 20) + 1 } else { len + 1 + rng.below(9) });
+                o["size"] = json!(match rng.below(4) {
+                    0 => len + (1 << 20) + 1,
+                    1 => len + 1 + rng.below(9),
+                    // fewer bytes declared than written: the data outgrows the preallocated file in the middle of a chunk
+                    2 if len > 1 => rng.range(1, len - 1),
+                    _ => len / 2,
+                });
             }
             _ => {
-                o["sri"] = json!({"val":vi,"algo":"sha256","wrong":true});
+                // a digest that names nothing, or the true address of another value (which may be stored and in use)
+                o["sri"] = if rng.chance(1, 2) { json!({"val":vi,"algo":"sha256","wrong":true}) } else { json!({"val":(vi + 1 + rng.idx(2)) % 3,"algo":"sha256"}) };
             }
         }
         st["chunks"] = json!(chunks);
